@@ -44,10 +44,12 @@ type c12Prim struct {
 	dashOff float64
 	col     [4]float64 // non-premultiplied r g b (0..255), alpha 0..1 in col[3]
 	grad    bool
-	pieces  [][]Pt // dashes of the stroke as open polylines (or the whole sub-paths when not dashed)
+	axis    []float64 // linear gradient: start and end of the gradient vector in canvas space
+	pieces  [][]Pt    // dashes of the stroke as open polylines (or the whole sub-paths when not dashed)
 	closed  []bool
 	boxes   []geom.Box
 	endTol  []float64
+	shaky   []Pt // vertices next to a segment far shorter than the stroke width: the join there depends on geometry below the output precision
 }
 
 const (
@@ -130,6 +132,14 @@ func (p *c12Prim) prepare() {
 
 func (p *c12Prim) makeBoxes() {
 	p.boxes = p.boxes[:0]
+	p.shaky = p.shaky[:0]
+	for _, pc := range p.pieces {
+		for i := 0; i+1 < len(pc); i++ {
+			if l := pc[i].Dist(pc[i+1]); l > 0 && l < 0.01*p.hw {
+				p.shaky = append(p.shaky, pc[i])
+			}
+		}
+	}
 	for _, pc := range p.pieces {
 		b := geom.EmptyBox()
 		for _, v := range pc {
@@ -195,6 +205,21 @@ func (p *c12Prim) cover(q Pt, mg float64) int {
 		if p.endTol[k] > 0 && endDist < mg+p.endTol[k]+p.hw*reach {
 			res = covAmb
 			continue
+		}
+		// a join next to a segment of a hundredth of the half width (e.g. the 2 micrometre line a PostScript
+		// arc prepends when its computed start misses the current point) is not decided beyond the band
+		if d > p.hw-mg {
+			near := false
+			for _, v := range p.shaky {
+				if q.Dist(v) < far {
+					near = true
+					break
+				}
+			}
+			if near {
+				res = covAmb
+				continue
+			}
 		}
 		// exact region of the stroke (segment rectangles, joins, caps), decided when it is constant over the
 		// margin disc around q
@@ -373,11 +398,19 @@ func genC12State(r *core.Rng) any {
 			}
 			d := c12Draw{c14Draw: c14Draw{Data: dataCopy(p), X: c.W * r.Range(0.3, 0.7), Y: c.H * r.Range(0.3, 0.7), Stroke: cols[r.Intn(2)], Width: widths[r.Intn(2)], Cap: r.Intn(3), Z: 0, Shape: "poly", Size: size}}
 			d.JoinX = core.PickI(r, []int{0, 0, 1, 2, 5, 5})
-			if r.Chance(0.3) {
-				d.Fill = cols[r.Intn(2)]
+			if r.Chance(0.4) {
+				d.Fill = append([]int(nil), cols[r.Intn(2)]...)
+				if r.Chance(0.4) {
+					d.Fill[3] = 128 // translucent fill under an opaque stroke: two alphas in one draw
+				}
 			}
 			if r.Chance(0.3) {
 				d.Dashes = []float64{core.PickF(r, []float64{2, 3}), 1}
+			}
+			if k > 0 && r.Chance(0.3) {
+				// exactly the style of the previous draw: nothing may be left out because it "is cached"
+				pv := c.Draws[k-1]
+				d.Fill, d.Stroke, d.Width, d.Cap, d.JoinX, d.Dashes = pv.Fill, pv.Stroke, pv.Width, pv.Cap, pv.JoinX, pv.Dashes
 			}
 			if r.Chance(0.3) {
 				s := r.Range(0.7, 1.4)
@@ -575,6 +608,7 @@ func readSVG(data []byte, eps float64) ([]c12Prim, error) {
 	H := 0.0
 	scaleX, scaleY := 1.0, 1.0
 	grads := map[string]bool{}
+	gradAxes := map[string][]float64{}
 	depthDefs := 0
 	for {
 		tok, err := dec.Token()
@@ -612,6 +646,13 @@ func readSVG(data []byte, eps float64) ([]c12Prim, error) {
 			depthDefs++
 		case "linearGradient", "radialGradient":
 			grads[attr["id"]] = true
+			if se.Name.Local == "linearGradient" && attr["gradientUnits"] == "userSpaceOnUse" {
+				var v [4]float64
+				for i, k := range []string{"x1", "y1", "x2", "y2"} {
+					v[i], _ = strconv.ParseFloat(attr[k], 64)
+				}
+				gradAxes[attr["id"]] = []float64{v[0] * scaleX, H - v[1]*scaleY, v[2] * scaleX, H - v[3]*scaleY}
+			}
 		case "path":
 			if _, has := attr["transform"]; has {
 				return nil, fmt.Errorf("path with a transform attribute is not read")
@@ -646,6 +687,7 @@ func readSVG(data []byte, eps float64) ([]c12Prim, error) {
 						return nil, fmt.Errorf("fill refers to #%s, which is not defined before its use", url)
 					}
 					pr.grad = true
+					pr.axis = gradAxes[url]
 				}
 				prims = append(prims, pr)
 			}
@@ -707,6 +749,7 @@ type pdfGS struct {
 	ctm            aff
 	fill, stroke   [4]float64
 	fillG, strokeG bool
+	fillAxis       []float64
 	w              float64
 	cap, join      int
 	limit          float64
@@ -760,7 +803,11 @@ func readPDF(data []byte, epsPt float64) ([]c12Prim, float64, float64, error) {
 		}
 		id := func(p Pt) Pt { return toMM(p) }
 		if fill {
-			prims = append(prims, c12Prim{fill: subsToPolys(b.subs, epsPt, true, id), rule: rule, col: gs.fill, grad: gs.fillG})
+			pr := c12Prim{fill: subsToPolys(b.subs, epsPt, true, id), rule: rule, col: gs.fill, grad: gs.fillG}
+			if gs.fillG {
+				pr.axis = gs.fillAxis
+			}
+			prims = append(prims, pr)
 		}
 		if stroke {
 			sc := math.Sqrt(math.Abs(gs.ctm.det()))
@@ -851,6 +898,19 @@ func readPDF(data []byte, epsPt float64) ([]c12Prim, float64, float64, error) {
 		case "cs", "CS":
 		case "scn":
 			gs.fillG = true
+			gs.fillAxis = nil
+			if nm, ok := a[len(a)-1].(refpdf.Name); ok {
+				pats, _ := f.Resolve(pg.Resources["Pattern"]).(refpdf.Dict)
+				pat, _ := f.Resolve(pats[nm]).(refpdf.Dict)
+				sh, _ := f.Resolve(pat["Shading"]).(refpdf.Dict)
+				if t, _ := refpdf.Num(sh["ShadingType"]); t == 2 {
+					if co, ok := f.Resolve(sh["Coords"]).(refpdf.Array); ok && len(co) == 4 {
+						for _, e := range co {
+							gs.fillAxis = append(gs.fillAxis, num(e)*mmPerPt)
+						}
+					}
+				}
+			}
 		case "SCN":
 			gs.strokeG = true
 		case "gs":
@@ -1164,6 +1224,34 @@ func c12Check(ci any, o *core.Obs) {
 		modelSVG[k].prepare()
 		modelSVG[k].makeBoxes()
 	}
+	// gradient vectors, in the order of appearance
+	for _, bk := range backs {
+		if bk.name == "ps" {
+			continue
+		}
+		var ma, ba [][]float64
+		for _, pr := range model {
+			if pr.grad {
+				ma = append(ma, pr.axis)
+			}
+		}
+		for _, pr := range bk.prims {
+			if pr.grad {
+				ba = append(ba, pr.axis)
+			}
+		}
+		o.Decided(1)
+		if len(ma) != len(ba) {
+			o.Fail(bk.name+"-gradient", "the drawing has %d gradient fills, the %s output %d; %s", len(ma), bk.name, len(ba), c12Str(c))
+			return
+		}
+		for i := range ma {
+			if len(ba[i]) != 4 || math.Abs(ba[i][0]-ma[i][0])+math.Abs(ba[i][1]-ma[i][1])+math.Abs(ba[i][2]-ma[i][2])+math.Abs(ba[i][3]-ma[i][3]) > 1e-4*(c.W+c.H) {
+				o.Fail(bk.name+"-gradient", "gradient %d runs along %v in the %s output, along %v in the drawing (canvas mm); %s", i, ba[i], bk.name, ma[i], c12Str(c))
+				return
+			}
+		}
+	}
 	wpx, hpx := img.Bounds().Dx(), img.Bounds().Dy()
 	r := caseRng(c, "pixels")
 	var samples []Pt
@@ -1363,6 +1451,8 @@ func c12Model(c *c12Case, eps float64, o *core.Obs, arcsNative bool) ([]c12Prim,
 			pr := c12Prim{fill: subsToPolys(subs, epsPath, true, tr), rule: d.Rule, grad: d.Grad}
 			if !d.Grad {
 				pr.col = col(d.Fill)
+			} else {
+				pr.axis = []float64{0, 0, c.W, c.H} // gradients are given in canvas coordinates
 			}
 			prims = append(prims, pr)
 		}
